@@ -257,6 +257,12 @@ func genCases(rng *vh.Rng, seq *int, withWitness bool) []*hcase {
 	for i := 0; i < 4; i++ {
 		cases = append(cases, genFullTable(rng, seq))
 	}
+	for i := 0; i < 4; i++ {
+		cases = append(cases, genRefreshFull(rng, seq))
+	}
+	for i := 0; i < 24; i++ {
+		cases = append(cases, genFiles(rng, seq))
+	}
 	return cases
 }
 
@@ -314,6 +320,21 @@ func runCases(env *vh.Env, rep *vh.Report, cases []*hcase) {
 			if o.Kind == "read" {
 				a := ans[offs[i]+1+k]
 				rep.Count("read:" + strings.Fields(a)[0])
+			}
+			if o.Kind == "files" {
+				a := ans[offs[i]+1+k]
+				rep.Count("files:" + strings.Fields(a)[0])
+				if f := strings.Fields(a); len(f) == 2 && f[1] != "-" {
+					n := strings.Count(f[1], ",") + 1
+					switch {
+					case n >= 100:
+						rep.Count("files:listed-100(limit)")
+					case n > 10:
+						rep.Count("files:listed-11..99")
+					default:
+						rep.Count("files:listed-1..10")
+					}
+				}
 			}
 			if o.Kind == "proc" || o.Kind == "clr" {
 				rep.CountN("retention:files-removed", len(obsAll[i].dels[k]))
